@@ -8,6 +8,8 @@ T_REPLAY = "TLA+ model checking with TLC (spec/Fmm.tla, BlockTree.tla, Grid.tla)
 CLAIMS = {
  "C01": (MC, "TLC checks ExactlyOnce, MultipoleDef, LocalDef, RhsDef, Completes and the refinement of the dataflow layer on every occupancy pattern x block size x grouping mode x stop level of bounded pools in dimensions 1-4 (Grid's PartitionLemma is the design-level reason); every scenario is replayed on TbfTree/TbfAlgorithm with the bag kernel and the projected state (digests per level + a closed-form exactly-once check on the real buffers) compared", T_REPLAY, "5 C01"),
  "C02": (MC, "TLC checks GeometricConsistency of every contribution in every state and that each wrapper call is an enabled batch of the dataflow layer; in the replay every kernel callback is checked against the registry of true cell/particle identities (level, octant codes, offsets modulo the box, separation, adjacency, data bits, non-empty lists)", T_REPLAY + "; per-callback argument validation", "5 C02"),
+ "C03": (MC, "the OpenMP executors (plain and target/source) are run under a controllable mock of the GOMP ABI on every TLC scenario with immediate and fully deferred fifo/lifo/random/priority-inverted schedules, 1-16 threads and several worker-id policies (stack scrubbed before deferred tasks), and must equal the sequential executor bag by bag; the submitted task graph is recorded (declared dependences mapped to group buffers, actual accesses from kernel callbacks) and must satisfy Covered; TLC explores all interleavings of recorded graphs with TaskRuntime.tla (NoRace, AllDone, Covered => NoRace), validates the mock's run orders and generates schedules that are replayed; an AddressSanitizer build (detect_stack_use_after_return) repeats a subset for variable lifetimes", "TLA+ model checking (TLC) of task graphs recorded from the real executor (TaskRuntime.tla) + schedule replay through a mock OpenMP runtime + spec-generated scenarios (Fmm.tla)", "5 C03"),
+ "C15": ("exploration", "every TLC-generated scenario, history and schedule family is re-run on an AddressSanitizer + UBSan + assertions-on + pattern-initialised build (sequential, target/source, periodic, OpenMP under the mock runtime incl. full deferral); any sanitizer report, failed library assertion or fault is the violation; model-side capacity and assertion invariants (BatchWithinCapacity, NoAssertFail) are checked by TLC", "sanitizer runs driven by TLC-generated scenarios/schedules (the specification supplies inputs and invariants; sanitizers observe UB)", "5 C15"),
  "C06": (MC, "TLC enumerates every tree of bounded pools (BlockTreeMC) and every execution history (Fmm); the replay checks on the real tree that each input particle is stored exactly once, in the leaf of its position, with bit-identical data and zeroed results/expansions, and that a byte hash of all symbolic buffers is unchanged by every execute()", T_REPLAY, "5 C06"),
  "C07": (MC, "TLC evaluates SortedPartition, AncestorClosure, BlockBound, OgppBound, RootIsSingle on every tree of bounded pools, both grouping modes, after construction and after move/rebuild histories, both trees of the target/source variant; the real TbfTree is compared group by group and header by header with TLC's tree", T_REPLAY, "5 C07"),
  "C08": (MC, "TLC checks that the digest of the elementary interactions performed equals the grouping-free definition for every block size and grouping mode; the replay compares the multiset of elementary interactions recorded from the kernel callbacks and the bag state with it", T_REPLAY, "5 C08"),
